@@ -248,7 +248,12 @@ class Gen:
         # keep the display inside replay's 1 KiB text buffers (their overflow is a separate witness)
         while self.display_len(c) > 900 and c["specs"]:
             self.drop_last()
-        c["xmm0"] = r.choice([0, 0x3ff8000000000000, 0x400921fb54442d18, r.getrandbits(64)])
+        x = r.choice([0, 0x3ff8000000000000, 0x400921fb54442d18, 0x8000000000000000, 1, r.getrandbits(64), r.getrandbits(64)])
+        if (x >> 52) & 0x7ff == 0x7ff:
+            x &= ~(1 << 62)              # no NaN / infinity: the logging scripts print numbers, not bits
+        if (x >> 23) & 0xff == 0xff:
+            x &= ~(1 << 30)              # ... nor in the low half, which is what retval/f32 takes
+        c["xmm0"] = x
         finish_slots(c)
         if profile == "multi" or r.random() < 0.15:
             self.multi()
